@@ -189,7 +189,7 @@ func genC19(seed uint64, index int, tier string) *run.Plan {
 	for i := 0; i < nalt; i++ {
 		alter := 0
 		if g.Intn(5) != 0 {
-			alter = 1 + g.Intn(23)
+			alter = 1 + g.Intn(24)
 		}
 		p.Faults = append(p.Faults, run.Fault{Kind: "alter", A: alter, B: g.Intn(1 << 16), C: g.Intn(8)})
 	}
@@ -461,6 +461,18 @@ func execC19(t *testing.T, w *core.World, p *run.Plan, r *run.Result) {
 			resign(apriv)
 		case 19: // no state-init at all
 			proof.Proof.StateInit = ""
+		case 24:
+			// the attacker's own wallet state-init, serialized "with hashes": the stored root hash says it is the
+			// victim's address (a parser that trusts stored hashes compares that, and reads the attacker's key)
+			root := aid.stateInit()
+			var sh [34]byte
+			a := id.address()
+			copy(sh[:32], a.Address[:])
+			sh[33] = byte(1 + aC%3)
+			bocStoredHash[root] = sh
+			proof.Proof.StateInit = base64.StdEncoding.EncodeToString(bocSerialize(root))
+			delete(bocStoredHash, root)
+			resign(apriv)
 		case 23:
 			// one cell of the state-init container filled with one-bits (or zeros): unary lengths and dictionary
 			// labels run to the end of the cell
@@ -746,7 +758,7 @@ func stripNums(s string) string {
 func init() {
 	run.Register(&run.Engine{ID: "C19", Gen: genC19, Exec: execC19, Meta: run.Meta{
 		Technique:   "deterministic simulation: three-party timed protocol (wallet, adversarial channel, server) plus a failing/lying get-method executor under one simulated clock; reference acceptance model as oracle",
-		Rule:        "one run = a history: the server issues payloads, a wallet (version x key x workchain, clock skew up to +-10 min) signs after a drawn delay, the channel delivers the proof unaltered or with one of 23 alterations (field substitutions, bit flips, attacker-built state-inits incl. no code / no data / unknown contract / multi-root / garbage, wrong-length payload or signature, full attacker proof, descriptor-level container corruption, small-order key forgery, the same account hash under a congruent workchain number), the server checks it 1-3 times at drawn instants around the payload/proof lifetimes, possibly at a server with another secret or other lifetimes, with an executor that answers with the wallet's key, another key, an error, a malformed stack, a short key, a failure exit code, -2^256, a tiny integer or zero, possibly after a delay; the payload and domain checks are passed as the server's own methods, as (verdict, nil) wrappers or as error-reporting wrappers. Non-trivial = at least one check ran; distinct = distinct event-log digest. Abstract state = (alteration, executor mode, server, reference verdict and reason).",
+		Rule:        "one run = a history: the server issues payloads, a wallet (version x key x workchain, clock skew up to +-10 min) signs after a drawn delay, the channel delivers the proof unaltered or with one of 24 alterations (field substitutions, bit flips, attacker-built state-inits incl. no code / no data / unknown contract / multi-root / garbage, wrong-length payload or signature, full attacker proof, descriptor-level container corruption, small-order key forgery, the same account hash under a congruent workchain number), the server checks it 1-3 times at drawn instants around the payload/proof lifetimes, possibly at a server with another secret or other lifetimes, with an executor that answers with the wallet's key, another key, an error, a malformed stack, a short key, a failure exit code, -2^256, a tiny integer or zero, possibly after a delay; the payload and domain checks are passed as the server's own methods, as (verdict, nil) wrappers or as error-reporting wrappers. Non-trivial = at least one check ran; distinct = distinct event-log digest. Abstract state = (alteration, executor mode, server, reference verdict and reason).",
 		Real:        []string{"tonconnect.Server: GeneratePayload, CheckPayload, CheckProof, ParseStateInit, getWalletPubKey", "tonconnect.CreateSignedProof", "abi.GetPublicKey decoding of the executor's stack", "wallet.GenerateStateInit, ton.ParseAccountID, boc/tlb decoders underneath"},
 		Simulated:   []string{"clock (testing/synctest) incl. wallet clock skew", "the channel between wallet and server (adversary)", "the abi.Executor party", "crypto/rand (seeded)"},
 		Assumptions: []string{"within +-1 s of an expiry boundary the verdict is not judged (the implementation truncates to Unix seconds; the property does not fix the rounding)", "proof timestamps in the future are not judged as expired", "alteration 20 forges a signature for the all-zero key (an Ed25519 point of order 4) with github.com/oasisprotocol/curve25519-voi; other small-order keys are not tried", "boc.DeserializeBocBase64 is trusted to enumerate the cells of a state-init; the key offset per wallet version is laid out by the harness"},
